@@ -7,7 +7,7 @@ from ECAgent.Collectors import Collector
 from .common import Model, Rec, RefSched, SystemNotFoundError, gen_prio
 
 PROPERTY = "C01"
-QUICK_RUNS = 40000
+QUICK_RUNS = 24000
 CHUNK = 500
 RULE = ("seeded add/remove/re-add/step/lookup histories (5-60 ops) over a pool of 1-10 always-on recording systems "
         "(priorities with forced repeats, extremes, real Collector subclasses with the package's default priority) "
